@@ -846,6 +846,13 @@ impl Check {
         let dir = format!("{}/evidence", verif_root());
         let _ = std::fs::create_dir_all(&dir);
         let path = format!("{dir}/{}.json", self.id);
+        // A property decided by two binaries (component + end-to-end part): the second one
+        // merges its stages into the evidence the first one has just written.
+        let ev = if std::env::var_os("VERIF_EVIDENCE_MERGE").is_some() {
+            merge_evidence(&path, ev)
+        } else {
+            ev
+        };
         if self.only_stage.is_none() && std::env::var_os("VERIF_NO_EVIDENCE").is_none() {
             std::fs::write(&path, serde_json::to_string_pretty(&ev).unwrap())
                 .expect("write evidence");
@@ -876,6 +883,39 @@ fn promote_unlisted(r: Outcome, ctx: &CaseCtx, known_sigs: &[String]) -> Outcome
         }
     }
     r
+}
+
+fn merge_evidence(path: &str, mut new: Value) -> Value {
+    let Ok(text) = std::fs::read_to_string(path) else { return new };
+    let Ok(old) = serde_json::from_str::<Value>(&text) else { return new };
+    if old["tier"] != new["tier"] || old["seed"] != new["seed"] {
+        return new;
+    }
+    let add = |a: &Value, b: &Value| json!(a.as_u64().unwrap_or(0) + b.as_u64().unwrap_or(0));
+    let (oc, nc) = (old["coverage"].clone(), new["coverage"].clone());
+    let cov = new["coverage"].as_object_mut().unwrap();
+    cov.insert("evaluations".into(), add(&oc["evaluations"], &nc["evaluations"]));
+    cov.insert("distinct_nontrivial".into(), add(&oc["distinct_nontrivial"], &nc["distinct_nontrivial"]));
+    cov.insert("rule".into(), json!(format!("{} || {}", oc["rule"].as_str().unwrap_or(""), nc["rule"].as_str().unwrap_or(""))));
+    let mut samples = oc["samples"].as_array().cloned().unwrap_or_default();
+    samples.extend(nc["samples"].as_array().cloned().unwrap_or_default());
+    cov.insert("samples".into(), json!(samples));
+    let mut stages = oc["stages"].as_object().cloned().unwrap_or_default();
+    stages.extend(nc["stages"].as_object().cloned().unwrap_or_default());
+    cov.insert("stages".into(), Value::Object(stages));
+    cov.insert("exhaustive".into(), json!(false));
+    let mut kf = oc["known_findings_hit"].as_object().cloned().unwrap_or_default();
+    kf.extend(nc["known_findings_hit"].as_object().cloned().unwrap_or_default());
+    cov.insert("known_findings_hit".into(), Value::Object(kf));
+    let mut vs = oc["violation_signatures"].as_array().cloned().unwrap_or_default();
+    vs.extend(nc["violation_signatures"].as_array().cloned().unwrap_or_default());
+    cov.insert("violation_signatures".into(), json!(vs));
+    let mut assumptions = old["assumptions"].as_array().cloned().unwrap_or_default();
+    assumptions.extend(new["assumptions"].as_array().cloned().unwrap_or_default());
+    new["assumptions"] = json!(assumptions);
+    new["wall_s"] = json!(old["wall_s"].as_f64().unwrap_or(0.0) + new["wall_s"].as_f64().unwrap_or(0.0));
+    new["violations"] = add(&old["violations"], &new["violations"]);
+    new
 }
 
 fn sig_matches(pattern: &str, sig: &str) -> bool {
